@@ -532,6 +532,7 @@ func init() {
 		Run:         run,
 		Replay:      replayFn,
 		Single:      sm.Single,
+		SingleTicks: true,
 		HangLimit:   15 * time.Second,
 		SingleLimit: 30 * time.Second,
 		MaxBadCases: 3,
